@@ -5,6 +5,8 @@ use vstd::std_specs::cmp::OrdSpec;
 use std::io::{self, copy, Read, BufReader, BufRead, Write, Cursor, Result as IoResult};
 use std::str;
 use mime::Mime;
+use std::borrow::Cow;
+use std::path::Path;
 verus! {
 
 //@@ include io_prelude
